@@ -358,6 +358,12 @@ def directed_cases():
             for first_op in (['set', 'a', 1], ['setdefault', 'a', 1]):
                 out.append({'cls': cls, 'max_size': ms, 'on_miss': False, 'prefill': [], 'small': True,
                             'programs': [[first_op], [['set', 'b', 2]]]})
+        # two threads working on the SAME key (compound read-modify-write operations must be atomic)
+        for a, b in ((['setdefault', 'x', 7], ['setdefault', 'x', 8]), (['setdefault', 'x', 7], ['set', 'x', 5]),
+                     (['pop', 'a'], ['pop', 'a']), (['del', 'a'], ['pop', 'a', None]), (['popitem'], ['popitem']),
+                     (['update', [['x', 1], ['a', 2]]], ['update', [['a', 3], ['x', 4]]])):
+            out.append({'cls': cls, 'max_size': 2, 'on_miss': False, 'prefill': [['a', 0], ['b', 1]], 'small': True,
+                        'programs': [[a, ['getitem', 'a']], [b]]})
         # a lookup that misses and computes its value through on_miss, against a writer of the same key
         for look in (['getitem', 'x'], ['get', 'x', None], ['setdefault', 'x', 7]):
             for other in (['set', 'x', 5], ['getitem', 'x']):
